@@ -58,6 +58,18 @@ theorem C11_closed (T n : Int) (pre post : List Obs) (τ : Int) (tag : Nat) (aft
     (runObs T n (pre ++ ⟨τ, .closed, tag, after⟩ :: post) H).ret = some (τ, .noResp) :=
   terminal_prompt T n pre post ⟨τ, .closed, tag, after⟩ H (Or.inr (Or.inr rfl)) h0 hpre hw
 
+/-- **C11 (write error).** When the `k`-th `WriteTo` of a call fails on an open
+client and the fault-free run reaches that transmission, the call returns the
+write error at that very instant, `T·(2^k − 1)`, with exactly the `k` earlier
+transmissions; a run that ends before is unaffected. -/
+theorem C11_write_error (T : Int) (k : Nat) (r : Result) :
+    (k < r.txs.length → applyWriteFault T k r = ⟨r.txs.take k, some (T * (2 ^ k - 1), .writeErr)⟩) ∧
+    (r.txs.length ≤ k → applyWriteFault T k r = r) := by
+  unfold applyWriteFault
+  constructor
+  · intro h; simp [h]
+  · intro h; simp [Nat.not_lt.2 h]
+
 /-! Non-vacuity. -/
 
 /-- the hypotheses of `C11_ctx` hold of a concrete run: rejected stream, cancel at 2999
@@ -105,6 +117,16 @@ fails, `cancel()` runs, and the call returns the no-response error (the
 defect fixed in 98bd242: it used to return the transport's write error). -/
 theorem C11_close_between_tries (cfg : Cfg) (s s' : State) (i : Nat) (hpc : (getC s i).pc = .after .txfail)
     (h : step cfg s (.ret i) = some s') : (getC s' i).pc = .returned .noResp := by
+  simp only [step, hpc] at h
+  split at h
+  · simp at h
+  · injection h with h; subst h; simp [getC, retOf]
+
+/-- **C11 (a write error on an open client unregisters).** The failing `WriteTo`
+(label `transmitErr`) leads through `cancel()` to the write error being
+returned; by `C11_reuse` the transaction id is then free. -/
+theorem C11_write_error_returns (cfg : Cfg) (s s' : State) (i : Nat) (hpc : (getC s i).pc = .after .txerr)
+    (h : step cfg s (.ret i) = some s') : (getC s' i).pc = .returned .writeErr := by
   simp only [step, hpc] at h
   split at h
   · simp at h
@@ -162,5 +184,11 @@ def parkTrace : List Label :=
 example : ∃ s, Reachable cfgPark s ∧ s.closed = true ∧ s.mutex = some .rx ∧
     (∃ p r, s.rx = .sending p r) ∧ step cfgPark s .rxDeliver = none ∧ step cfgPark s .rxDoneDrop = none :=
   ⟨_, ⟨parkTrace, rfl⟩, by decide, by decide, ⟨_, _, rfl⟩, by decide, by decide⟩
+
+/-- a reachable state in which a call has returned the write error of its second try:
+nothing is pending (so `C11_reuse`'s hypothesis is met and its conclusion visible) -/
+example : ∃ s, Reachable cfgPark s ∧ (getC s 0).pc = .returned .writeErr ∧ s.pending.get 5 = none :=
+  ⟨_, ⟨[.call 0, .lock 0, .register 0, .transmitErr 0, .cancel1 0, .lock 0, .cancel2 0, .ret 0], rfl⟩,
+    by decide, by decide⟩
 
 end Dhcp.Client.LTS
